@@ -34,9 +34,24 @@ def sortStrs (l : List String) : List String := l.foldr insertStr []
 def showKeys (keys : List Bytes) : String :=
   if keys.isEmpty then "none" else "+".intercalate (sortStrs (keys.map hexArg))
 
+def showAgg (idx : Nat) (s : Stream) : String :=
+  match s.bounds with
+  | none => aggShow s.agg
+  | some b =>
+    -- a=hist (default boundaries) or a=hist:<b1>:<b2>…, then @<index of the bucket the value 100+idx is counted in>
+    aggShow s.agg ++ (if b = Gen.defaultHistogramBounds then "" else String.join (b.map fun x => ":" ++ toString x)) ++
+      "@" ++ toString (bucketIndex b (100 + idx))
+
 def showStream (idx : Nat) (s : Stream) : String :=
-  s!"n={hexArg s.name},d={hexArg s.description},u={hexArg s.unit},t={itypeShow s.type},a={aggShow s.agg},k={showKeys s.keys},v=" ++
+  s!"n={hexArg s.name},d={hexArg s.description},u={hexArg s.unit},t={itypeShow s.type},a={showAgg idx s},k={showKeys s.keys},v=" ++
     (if s.agg = .drop then "-" else toString (100 + idx))
+
+/-- `-` = no aggregation config, else strictly increasing boundaries `b1,b2,…` -/
+def boundsArg (t : String) : Option (Option (List Nat)) :=
+  if t = "-" then some none else do
+    let bs ← (t.splitOn ",").mapM (·.toNat?)
+    if bs.isEmpty ∨ !(bs.zip (bs.drop 1)).all (fun p => p.1 < p.2) ∨ bs.any (· > 1000000) then none
+    pure (some bs)
 
 /-- the attribute keys every measurement of the harness carries: `a`, `b` -/
 def measuredKeys : List Bytes := [[97], [98]]
@@ -55,7 +70,7 @@ def handleMv (toks : List String) : String :=
       -- all views are registered before the first instrument is created (the harness builds the provider first)
       let reg : Option (List Registered) := (ops.filter (·.head? = some "v")).mapM fun op =>
         match op with
-        | ["v", it, pat, unit, smn, smv, sms, vn, vd, vu, agg, flt] => do
+        | ["v", it, pat, unit, smn, smv, sms, vn, vd, vu, agg, flt, hb] => do
           let it ← itypeArg it
           let pat ← ofHexStr pat
           let np ← namePredOf pat
@@ -68,7 +83,8 @@ def handleMv (toks : List String) : String :=
           let vu ← ofHexStr vu
           let agg ← aggArg agg
           let flt ← filterArg flt
-          pure ⟨⟨it, np, unit⟩, ⟨smn, smv, sms⟩, ⟨vn, vd, vu, agg, flt⟩⟩
+          let hb ← boundsArg hb
+          pure ⟨⟨it, np, unit⟩, ⟨smn, smv, sms⟩, ⟨vn, vd, vu, agg, flt, hb⟩⟩
         | _ => none
       let instrs : Option (List Instr) := (ops.filter (·.head? ≠ some "v")).mapM fun op =>
         match op with
